@@ -62,7 +62,7 @@ REGISTRY = {
         undecided_clauses=["the call always terminates (liveness over threads/processes) is not decided"],
     ),
     "C01": dict(
-        packs=["par1", "par2", "par3", "par4"], level="proof",
+        packs=["par1", "par2", "par3", "par4"], level="proof", lemmas=["c01_composition"],
         replay=dict(script="replay/par.py", args=["C01", "{seed}", "small"], timeout=1500),
         bounded=[dict(name="parallel-configurations", script="replay/par.py", args=["C01", "{seed}", "small"], timeout=1500,
                       bound="real joblib.Parallel on threading/sequential (and a sample of loky) over n_jobs x batch_size x pre_dispatch x return_as grids, failing tasks/inputs, "
